@@ -490,10 +490,32 @@ async def check_laws(expr, asg, tree, top, got, acc, case, rng):
     if base != OUTCOME[top["st"]]:
         acc.v(f"{expr} with {asg}: outcome {base} differs from the documented semantics {OUTCOME[top['st']]}", case)
         return
+    def reused_tree(e):
+        """the tree entry point on a parsed tree that was evaluated before under another assignment (trees are inputs, too: callers parse once and evaluate
+        the tree for every message) -> (fulfilled, conditional) or the error"""
+        try:
+            tv = tree_entry_point(e, asg)
+        except BaseException as ex:  # pylint:disable=broad-except  # noqa: BLE001
+            return f"exception:{type(ex).__name__}"
+        return OUTCOME.get(tv, tv)
+
+    o0 = reused_tree(expr)
+    acc.count("reused_tree_evaluations")
+    if o0 != base:
+        acc.v(f"'{expr}' -> {base} from the string, but {o0} when its parsed tree is evaluated a second time (first under another assignment; assignment {asg})",
+              dict(case, law="reused-tree"))
+        return
     for name, t2 in law_instances(tree):
         e2 = render(t2, rng)
         g2 = await eval_real(e2, asg)
         acc.count("law_pairs")
+        if rng.random() < 0.2:
+            o2 = reused_tree(e2)
+            acc.count("reused_tree_evaluations")
+            if o2 != base:
+                acc.v(f"{name}: '{expr}' -> {base} but the parsed tree of '{e2}', evaluated a second time (first under another assignment), -> {o2} (assignment {asg})",
+                      dict(case, law=name, transformed=e2))
+                continue
         acc.distinct.add(_h((name, t2, tuple(sorted(asg.items())))))
         if g2["err"] is not None:
             acc.v(f"{name}: '{expr}' is valid but the transformed '{e2}' raises {g2['err']} (assignment {asg})",
